@@ -40,7 +40,10 @@ def make_replay(prop, v, path, seed):
         "trace": v.get("trace"), "bound": v.get("bound"),
         "failing_input": None,
     }
-    p = native(["search", v["obligation"], str(seed)])
+    target = v["obligation"]
+    if target.startswith("kani:") and v.get("replay_hint"):
+        target = v["replay_hint"]      # bounded harness: search the same function's contract mirror for a concrete input
+    p = native(["search", target, str(seed)])
     if p is not None and p.returncode == 1:
         try:
             rp["failing_input"] = json.loads(p.stdout.strip().split("\n")[-1])
